@@ -7,7 +7,7 @@ from checklib.gen import parse_ty
 from checklib.sweep import kinds_of, OBS
 from checklib.spec import support_value
 
-LEAN_DEPS = ['RvModel.Lemmas.C03', 'RvModel.Spec.C03', 'RvModel.Hand.DispatchAll']
+LEAN_DEPS = ['RvModel.Lemmas.C03', 'RvModel.Spec.C03', 'RvModel.Hand.KsDist', 'RvModel.Hand.DispatchAll']
 TRUSTED = ['Spec/C03.lean textbook CDFs (closed forms; incGamma/incBeta/erf argument mappings)',
            'R.incGammaR / incBetaR / erfR are the integral definitions; their derivative lemmas are proved (FTC)']
 ASSUMPTIONS = ['accuracy of special::inc_gamma / inc_beta / error in the far tails is only sampled (1e-8 absolute)',
@@ -96,7 +96,37 @@ def extra_run(man, tier, seed, only=None, extended=False):
             if not (abs(s - (1.0 - fv[3])) <= 1e-9):
                 failures.append({'site': op.replace('.cdf_', '.sf_'), 'case': lines[b + 4], 'impl': repr(s), 'expected': f'1 - cdf = {1 - fv[3]!r}',
                                  'observed': 'value', 'detail': 'complement', 'kind': kind, 'params': list(pv)})
-    return {'obligations': [], 'failures': failures, 'stats': {'evaluations': len(lines), 'distinct_nontrivial': len(set(lines))},
+    # KsTwoAsymptotic (hand model Hand/KsDist.lean, theorems ks_*_series): correspondence, and the cdf against a 40-term
+    # evaluation of BOTH classical series (they agree with each other far beyond 1e-8 on (0.2, 3)), continuity at the cut-over
+    obligations = []
+    if only in (None, 'KsTwoAsymptotic') and not extended:
+        import math
+        xs = [0.82, 0.8200000001, 0.8199999999, 0.3, 0.5, 1.0, 1.5, 2.5, 0.05, 0.15] + [rng.uniform(0.05, 3.0) for _ in range(n * 2)] \
+            + [0.82 + rng.uniform(-1e-3, 1e-3) for _ in range(n)]
+        kl = [f'hand.KsTwoAsymptotic.cdf_pdf - {enc(x)}' for x in xs]
+        ki, km = run_pair(kl)
+        bad = []
+        for x, l, a, b in zip(xs, kl, ki, km):
+            if a == 'NOOP' or b == 'NOOP':
+                continue
+            from checklib.core import cmp_tokens
+            okc, _ = cmp_tokens(a, b, 1e-12, 1e-300)
+            if not okc:
+                bad.append({'line': l, 'impl': a, 'model': b})
+            if a in ('PANIC', 'HANG'):
+                failures.append({'site': 'KsTwoAsymptotic.cdf', 'case': l, 'impl': a, 'expected': 'a number', 'observed': 'panic', 'detail': ''})
+                continue
+            c = tok_to_float(a.split()[0])
+            big = 1.0 - 2.0 * math.fsum((-1) ** (k - 1) * math.exp(-2.0 * k * k * x * x) for k in range(1, 41))
+            small = math.sqrt(2 * math.pi) / x * math.fsum(math.exp(-(2 * k - 1) ** 2 * math.pi ** 2 / (8 * x * x)) for k in range(1, 41))
+            ref = small if x < 1.0 else big
+            if not (abs(c - ref) <= 1e-8):
+                failures.append({'site': 'KsTwoAsymptotic.cdf', 'case': l, 'impl': repr(c), 'expected': f'Kolmogorov cdf {ref!r} within 1e-8',
+                                 'observed': 'value', 'detail': 'series', 'x': x})
+        obligations.append({'name': 'corr:KsTwoAsymptotic.cdf_pdf(hand model)', 'kind': 'corr', 'ok': not bad, 'site': 'KsTwoAsymptotic.cdf',
+                            'detail': (bad[0]['line'] + ' impl=' + bad[0]['impl'] + ' model=' + bad[0]['model']) if bad else '', 'cases': bad[:3]})
+        lines = lines + kl
+    return {'obligations': obligations, 'failures': failures, 'stats': {'evaluations': len(lines), 'distinct_nontrivial': len(set(lines))},
             'samples': lines[:2]}
 
 
